@@ -200,12 +200,20 @@ func (f *Fam) Gen(r *rand.Rand, i int) string {
 		return fmt.Sprintf("crashcommit %d", r.Intn(2*f.n+3))
 	case x < 78:
 		return "reopen"
-	case x < 88:
+	case x < 83:
 		v := int64(0)
 		if ver > 0 {
 			v = r.Int63n(ver+2) + 0
 		}
 		return fmt.Sprintf("load %d", v)
+	case x < 88:
+		// a read-only copy of the running multistore loaded at a height, as the base app makes one for every custom
+		// query (height 0 - "latest" - also before the first commit and with uncommitted writes pending)
+		v := int64(0)
+		if ver > 0 && r.Intn(3) != 0 {
+			v = r.Int63n(ver+2) + 0
+		}
+		return fmt.Sprintf("snapshot %d", v)
 	default:
 		h := int64(0)
 		if r.Intn(4) != 0 && ver > 0 {
@@ -399,6 +407,35 @@ func (f *Fam) Exec(op string) (obs string, fails []common.Failure) {
 			return "err", nil
 		}
 		return "ok " + tmp, nil
+	case "snapshot":
+		v, _ := strconv.ParseInt(w[1], 10, 64)
+		f.extra["snapshot-copies"]++
+		if len(f.pend) > 0 {
+			f.extra["snapshot-copies-with-writes-pending"]++
+		}
+		obs := "err"
+		before := f.a.dump()
+		func() {
+			defer func() {
+				if e := recover(); e != nil {
+					obs = "err"
+				}
+			}()
+			cp, ok := (*f.a.ms.CopyStore()).(*rootmulti.Store)
+			if !ok {
+				return
+			}
+			if err := cp.LoadVersion(v); err != nil {
+				return
+			}
+			obs = "ok " + (&inst{ms: cp, keys: f.a.keys, tkey: f.a.tkey}).dump()
+		}()
+		// the copy is read-only as far as the running store is concerned: the instance still holds what it held,
+		// pending writes included
+		if da, db := f.a.dump(), before; da != db {
+			fail("snapshot-read-only", "C12:snapshot-disturbed-store", fmt.Sprintf("after a copy of the multistore was loaded at height %d the running store holds %s, expected %s", v, da, db))
+		}
+		return obs, fails
 	case "query":
 		return f.query(w, fail), fails
 	}
